@@ -1,19 +1,49 @@
 """C06 — ring buffers are FIFO queues / delay lines.
 Proof: coq/props/C06.v (refinement of the Bounded/Fixed models to ideal queue / delay line,
-every capacity, every valid state, every history).  Tie: correspondence between the model's
-executable definitions (Ring/RingRun.v, evaluated by coqc) and dasp_ring_buffer on the same
-operation sequences from arbitrary valid (and invalid) raw states."""
-import json, os
+every capacity, every valid state, every history).
+Tie 1 (translator): translate/ring2coq.py regenerates coq/gen/RingGen.v from
+dasp_ring_buffer/src/lib.rs on every run (one Gallina definition per method of Fixed, Bounded,
+DrainBounded); Ring/RingGenEquiv.v proves every generated definition equal to the hand model's
+on all inputs, so the refinement theorems are theorems about the regenerated model.  The same translation
+with every usize `+` read as a checked 64-bit addition (coq/gen/RingGenCk.v, modulus M abstract) is proved equal
+to the unbounded one in every valid state over at most M/2 elements (c06_gen_no_index_overflow): no index
+addition of the source can overflow, for any argument.
+Tie 2 (correspondence): the model's executable definitions (Ring/RingRun.v, evaluated by coqc)
+against dasp_ring_buffer on the same operation sequences from arbitrary valid (and invalid) raw states.
+When the translator rejects the source or the equivalence no longer compiles (DESIGN 5.1/5.3) the
+correspondence is the search for a failing input: hand model vs crate, then the regenerated model
+(Ring/RingGenRun.v) vs crate and vs hand model, and the 64-bit reading vs the unbounded reading on a scaled-down
+machine (Ring/RingGenCkRun.v: modulus 2*capacity, all valid states of capacities 1..3); a failing input gives VIOLATION with a replay file,
+none gives a VIOLATION ending no-failing-input-found that names the lemma / the translator error.
+
+Harmless rewrites of the source (decided and tested): the equivalence proofs split on every test and close the
+leaves with lia/congruence after bringing commuted sums and differently written indices to one spelling, so
+operands of `+` swapped, `a >= b` written `b <= a`, a temporary more or less, comments and layout still PASS.
+A rewrite that is equal only by an arithmetic identity the proofs do not know (`(first + i % n) % n` for
+`(first + i) % n` -- which is NOT harmless at 64 bits, defect F9) is reported as a VIOLATION ending
+no-failing-input-found that names the lemma: the hand model / proof has to be looked at by a person.
+
+TESTING ONLY: DASP_RING_RS=<file> makes the translator read that file instead of /repo's lib.rs.  The
+harness is still built against /repo, so only the translator side sees the change -- unless
+DASP_RING_HARNESS=scratch is also set: then a copy of dasp_ring_buffer with that lib.rs and a
+one-binary copy of the harness are built under out/c06_scratch (never touches /repo)."""
+import json, os, re, shutil, sys, time
 import framework as F
+sys.path.insert(0, os.path.join(F.VERIF, "translate"))
+import ring2coq as T  # noqa: E402
 
 PROP = "C06"
 META = dict(
-    technique="Coq refinement proof (model -> ideal bounded queue / delay line) + coqc-evaluated model vs crate correspondence",
-    text="Machine-checked (Coq 8.16.1) refinement of a model of Bounded/Fixed, written after the source with the same index arithmetic, to an ideal capacity-bounded queue and an ideal delay line: every operation from every valid (start,len)/first state of every capacity, hence every history; no UB, no unprescribed panic. The model is tied to the crate by running its executable definitions inside coqc on the same operation sequences (every raw state of small capacities x every operation, random histories) and comparing all observations exactly.",
-    note="Trusted: Coq kernel; the hand-written model (Rust slices as lists, usize as nat, mem::replace/ptr::read/write as list updates) validated only through the correspondence; harness + python generators. Axioms: none.",
+    technique="Coq refinement proof (model -> ideal bounded queue / delay line) + model regenerated from the source by a translator and proved equal to the hand model + coqc-evaluated model vs crate correspondence",
+    text="Machine-checked (Coq 8.16.1) refinement of a model of Bounded/Fixed, written after the source with the same index arithmetic, to an ideal capacity-bounded queue and an ideal delay line: every operation from every valid (start,len)/first state of every capacity, hence every history; no UB, no unprescribed panic. Two ties to the source. (1) translate/ring2coq.py, a strict translator for the Rust subset the method bodies use, regenerates coq/gen/RingGen.v from dasp_ring_buffer/src/lib.rs on every run (every method of Fixed, Bounded, DrainBounded; anything outside its grammar, a new/missing method, a non-identity Slice impl is an error), and Coq proves each generated definition equal to the hand model's on all inputs (c06_gen_bounded_agrees, c06_gen_fixed_agrees), so the refinement theorems are about the regenerated model; the same translation with usize `+` read as checked 64-bit addition (coq/gen/RingGenCk.v) is proved to agree with it in every valid state for every argument (c06_gen_no_index_overflow: no index addition of the source can overflow). (2) The model's executable definitions are run inside coqc on the same operation sequences as the real crate (every raw state of small capacities x every operation, random histories) and all observations compared exactly; this also is the search for a failing input when (1) breaks.",
+    note="Trusted: Coq kernel; translate/ring2coq.py and the vocabulary Ring/RingPrim.v it translates into (Rust slices as lists, &mut [T] as index ranges, &mut T as an index, usize as nat, mem::replace/ptr::read/write as list updates) validated only through the correspondence; the caller-side glue of Ring/RingGenGlue.v; harness + python generators. Axioms: none.",
     design="6/C06")
 HEADER = "From Dasp Require Import Ring.RingRun."
 CHECK = "check"
+GEN_HEADER = "From Dasp Require Import Ring.RingRun Ring.RingGenRun."
+TEST_RING = os.environ.get("DASP_RING_RS")            # TESTING ONLY, see module docstring
+TEST_HARNESS = os.environ.get("DASP_RING_HARNESS") == "scratch" and bool(TEST_RING)
+RING_SRC = TEST_RING or os.path.join(F.REPO, "dasp_ring_buffer", "src", "lib.rs")
 
 B_OPS = ["push", "pop", "get", "set", "idx", "idxset", "slices", "slicesmut", "iter", "map", "mapslices",
          "drain", "drainlen", "extend", "len", "empty", "full", "maxlen", "drainnth", "drainskip", "iternth", "iterrev", "iterlast"]
@@ -49,18 +79,31 @@ def wire(o):
     return o
 
 
+def coq_gop(o):
+    """the same op for the runner of the GENERATED model (Ring/RingGenRun.v): the `_mut` accessors are routed
+    to the generated `_mut` methods"""
+    if o[0] == "slicesmut":
+        return "GSlicesMut"
+    if o[0] == "mapslices":
+        return f"GMapSlices {F.zlit(o[1])}"
+    return f"G ({coq_op(o)})"
+
+
 def build(item, ops=None):
     it = dict(item)
     if ops is not None:
         it["ops"] = ops
     ops_txt = " , ".join(" ".join(str(t) for t in wire(o)) for o in it["ops"])
     ops_coq = "[" + "; ".join(coq_op(o) for o in it["ops"]) + "]"
+    gops_coq = "[" + "; ".join(coq_gop(o) for o in it["ops"]) + "]"
     if it["kind"] == "B":
         it["line"] = f"B {it['store']} {it['start']} {it['len']} {' '.join(map(str, it['data']))} ; {ops_txt}"
         it["coq"] = f"BCase {F.zlit(it['start'])} {F.zlit(it['len'])} {F.zlist(it['data'])} {ops_coq}"
+        it["gcoq"] = f"GBCase {F.zlit(it['start'])} {F.zlit(it['len'])} {F.zlist(it['data'])} {gops_coq}"
     else:
         it["line"] = f"F {it['store']} {it['first']} {' '.join(map(str, it['data']))} ; {ops_txt}"
         it["coq"] = f"FCase {F.zlit(it['first'])} {F.zlist(it['data'])} {ops_coq}"
+        it["gcoq"] = f"GFCase {F.zlit(it['first'])} {F.zlist(it['data'])} {gops_coq}"
     return it
 
 
@@ -214,12 +257,248 @@ def load_corpus():
     return items
 
 
+# ---------------------------------------------------------------------------
+# tie 1: regenerate the model from the source, build the proofs, find what broke
+
+
+def regenerate():
+    """coq/gen/RingGen.v from the current source (written only if changed). -> (names, changed, error)"""
+    try:
+        names, changed = T.generate(RING_SRC)
+        return names, changed, None
+    except T.TranslateError as e:
+        return None, False, str(e)
+
+
+def broken_lemma(log):
+    """every error `make` reported: file, line, enclosing lemma (files of the translator tie first)"""
+    found = []
+    for m in re.finditer(r'File "\./([^"]+)", line (\d+), characters[^\n]*\n((?:(?!File "|make).*\n){0,6})', log):
+        path, line = m.group(1), int(m.group(2))
+        lemma = None
+        try:
+            src = open(os.path.join(F.COQ, path)).read().split("\n")
+            for l in range(min(line, len(src)) - 1, -1, -1):
+                mm = re.match(r"\s*(?:Lemma|Theorem|Example|Definition|Fixpoint)\s+([\w']+)", src[l])
+                if mm:
+                    lemma = mm.group(1)
+                    break
+        except OSError:
+            pass
+        found.append(dict(file="coq/" + path, line=line, lemma=lemma, message=" ".join(m.group(3).split())[:400]))
+    if not found:
+        return dict(file=None, line=None, lemma=None, message=log[-1500:], all=[])
+    rank = lambda f: 0 if "gen/RingGen" in f["file"] else 1 if "RingGenEquiv" in f["file"] or "RingGenGlue" in f["file"] else 2 if "RingGen" in f["file"] else 3
+    found.sort(key=rank)
+    return dict(found[0], all=[f"{f['file']}:{f['line']} {f['lemma']}" for f in found])
+
+
+def proof_phase(rep, terr):
+    """-> info; info['broken'] (dict) is set when the translator tie or a proof broke: the caller then runs
+    the search and registers the violation"""
+    t = time.time()
+    info = {"coq_ok": False, "theorems": [], "axioms": [], "coq_s": None, "broken": None}
+    if terr is not None:
+        info["broken"] = dict(stage="translator", message="the model cannot be regenerated from the source: " + terr,
+                              source=RING_SRC)
+        info["coq_s"] = round(time.time() - t, 1)
+        return info
+    ok, log = F.coq_prop_build(PROP)
+    info["coq_ok"] = ok
+    if not ok:
+        # name the FIRST thing that broke along the translator tie (make -j reports whatever failed first)
+        bl = None
+        for tgt in ("gen/RingGen.vo", "gen/RingGenCk.vo", "theories/Ring/RingGenEquiv.vo", "theories/Ring/RingGenCkEquiv.vo"):
+            ok2, log2 = F.coq_make(tgt)
+            if not ok2:
+                bl = broken_lemma(log2)
+                break
+        if bl is None:
+            bl = broken_lemma(log)
+        f = bl.get("file") or ""
+        if "gen/RingGen.v" in f:
+            stage, what = "generated_model", "the model regenerated from the source does not type-check in Coq (the body of a method no longer has the representation its declared Rust type needs)"
+        elif "gen/RingGenCk.v" in f:
+            stage, what = "generated_model", "the 64-bit reading of the model regenerated from the source (gen/RingGenCk.v) does not type-check in Coq"
+        elif "RingGenCkEquiv" in f:
+            stage, what = "index_overflow", f"an index addition of the regenerated source can overflow usize in a valid state (or is no longer provably free of it): lemma {bl.get('lemma')}"
+        elif "RingGenEquiv" in f or "RingGenGlue" in f:
+            stage, what = "equivalence", f"the method regenerated from the source is no longer provably equal to the hand model: lemma {bl.get('lemma')}"
+        else:
+            stage, what = "proof", f"proof obligation no longer checks: {bl.get('lemma')}"
+        info["broken"] = dict(stage=stage, message=what, broken_lemma=bl.get("lemma"), file=bl.get("file"), line=bl.get("line"),
+                              coq_message=bl.get("message"), all_broken=bl.get("all", []), target="coq/props/C06.vo",
+                              source=RING_SRC)
+        info["coq_s"] = round(time.time() - t, 1)
+        return info
+    problems, ainfo = F.coq_audit(PROP, log, frozenset())
+    info.update(ainfo)
+    info["coq_s"] = round(time.time() - t, 1)
+    if problems:
+        rep.violation("audit", {"kind": "audit of the Coq development failed", "problems": problems}, no_input=True)
+    return info
+
+
+def scratch_harness():
+    """TESTING ONLY (DASP_RING_HARNESS=scratch): dasp_ring_buffer with lib.rs replaced by DASP_RING_RS and a
+    one-binary copy of the harness, under out/c06_scratch.  -> {profile: path} or (None, log)"""
+    root = F.ensure_dir(os.path.join(F.OUT, "c06_scratch"))
+    rb = os.path.join(root, "dasp_ring_buffer")
+    if os.path.exists(rb):
+        shutil.rmtree(rb)
+    shutil.copytree(os.path.join(F.REPO, "dasp_ring_buffer"), rb)
+    shutil.copy(TEST_RING, os.path.join(rb, "src", "lib.rs"))
+    h = os.path.join(root, "harness")
+    F.ensure_dir(os.path.join(h, "src", "bin"))
+    shutil.copy(os.path.join(F.HARNESS, "src", "lib.rs"), os.path.join(h, "src", "lib.rs"))
+    shutil.copy(os.path.join(F.HARNESS, "src", "bin", "c06.rs"), os.path.join(h, "src", "bin", "c06.rs"))
+    F.write_if_changed(os.path.join(h, "Cargo.toml"),
+                       '[package]\nname = "dasp_verif_harness"\nversion = "0.0.0"\nedition = "2018"\npublish = false\n\n[workspace]\n\n'
+                       f'[dependencies]\ndasp_ring_buffer = {{ path = "{rb}" }}\n\n'
+                       '[profile.dev]\nopt-level = 1\ndebug = false\noverflow-checks = true\ndebug-assertions = true\n')
+    env = {"RUSTFLAGS": f"--cfg {F.GUARD}", "CARGO_TARGET_DIR": os.path.join(h, "target")}
+    rc, out = F.sh(["cargo", "build", "--offline", "--quiet", "--bin", "c06"], cwd=h, env=env, timeout=1500)
+    path = os.path.join(h, "target", "debug", "c06")
+    return (rc == 0 and os.path.exists(path)), out, path
+
+
+def case_of(it):
+    return {k: it[k] for k in ("kind", "store", "start", "len", "first", "data", "ops") if k in it}
+
+
+def gen_search(rep, binpath, items, outl, broken):
+    """the regenerated model (Ring/RingGenRun.v) on the correspondence cases: against the crate's observations
+    and against the hand model.  -> (n_vs_crate, n_vs_hand, note) and registers a VIOLATION with replay for
+    the first failing input"""
+    ok, log = F.coq_make("theories/Ring/RingGenRun.vo")
+    if not ok:
+        return None, None, "the regenerated model does not compile, it cannot be run: " + " ".join(log[-600:].split())
+    # the regenerated model is run WITHOUT the index normalisation of Ring/RingRun.v (proved invisible for the hand
+    # model only): cases with an index too large for a unary nat stay out
+    small = lambda it: all(not (o[0] in INDEX_OPS and o[1] > 4096) for o in it["ops"])
+    keep = [i for i, it in enumerate(items) if small(it)]
+    items, outl = [items[i] for i in keep], [outl[i] for i in keep]
+    terms = [f"({it['gcoq']}, {F.zlistlist(F.norm_obs_line(o))})" for it, o in zip(items, outl)]
+    bad_any, e1 = F.coq_check_cases("c06_gen", GEN_HEADER, "both_gen", terms)
+    if e1:
+        return None, None, "the regenerated model could not be evaluated: " + str(e1[0])[:600]
+    sub = [terms[i] for i in bad_any]
+    bc, e1 = F.coq_check_cases("c06_gen_crate", GEN_HEADER, "check_gen", sub)
+    bh, e2 = F.coq_check_cases("c06_gen_hand", GEN_HEADER, "agree_gen", sub)
+    if e1 or e2:
+        return None, None, "the regenerated model could not be evaluated: " + str((e1 + e2)[0])[:600]
+    bad_crate, bad_hand = [bad_any[i] for i in bc], [bad_any[i] for i in bh]
+    for tag, bad, fn, what in (("crate", bad_crate, "check_gen", "the crate"), ("hand", bad_hand, "agree_gen", "the hand model")):
+        if not bad:
+            continue
+        idx = bad[0]
+        it = items[idx]
+
+        def fails(c):
+            rc, o, _ = F.run_bin(binpath, [c["line"]])
+            if rc != 0 or len(o) != 1:
+                return False
+            b, e = F.coq_check_cases("c06_gen_shrink", GEN_HEADER, fn, [f"({c['gcoq']}, {F.zlistlist(F.norm_obs_line(o[0]))})"])
+            return bool(b) and not e
+
+        small = F.shrink_ops(it, build, fails)
+        rc, out, _ = F.run_bin(binpath, [small["line"]])
+        _, gmodel = F.coq_eval("c06", GEN_HEADER, f"gen_run_case ({small['gcoq']})")
+        _, hmodel = F.coq_eval("c06", GEN_HEADER, f"run_case ({small['coq']})")
+        rep.violation(f"generated_vs_{tag}_case{idx}", {
+            "kind": f"the model regenerated from {RING_SRC} disagrees with {what} on this case "
+                    "(the source no longer computes what the proved model computes; or a translator fault)",
+            "why": broken, "case": case_of(small), "model": "generated", "against": tag,
+            "harness_line": small["line"], "implementation_observations": out,
+            "generated_model_observations": gmodel[-3000:], "hand_model_observations": hmodel[-3000:],
+            "failing_cases_in_this_run": len(bad), "cases_run_on_the_generated_model": len(items),
+            "replay": "./check.py C06 --replay <this file>"})
+        break
+    return len(bad_crate), len(bad_hand), None
+
+
+CK_METHODS = {1: "Bounded::push", 2: "Bounded::pop", 3: "Bounded::get", 4: "Bounded::get_mut",
+              11: "Fixed::push", 12: "Fixed::get", 13: "Fixed::get_mut"}
+CK_HEADER = "From Dasp Require Import Ring.RingGenCkRun."
+
+
+def ck_hits():
+    """Ring/RingGenCkRun.v: 64-bit reading vs unbounded reading of the regenerated methods on a scaled-down machine
+    (modulus 2 * capacity, every valid state of capacities 1..3, every argument below the modulus)"""
+    ok, log = F.coq_make("theories/Ring/RingGenCkRun.vo")
+    if not ok:
+        return None, "the 64-bit reading of the regenerated model does not compile: " + " ".join(log[-500:].split())
+    rc, out = F.coq_eval("c06_ck", CK_HEADER, "scaled_down_hits")
+    if rc != 0:
+        return None, out[-600:]
+    rows = [[int(x) for x in re.findall(r"-?\d+", g)] for g in re.findall(r"\[([^\[\]]*)\]", out.split(":")[0])]
+    hits = []
+    for r in rows:
+        if len(r) < 4:
+            continue
+        if r[0] < 10:
+            h = dict(method=CK_METHODS.get(r[0], str(r[0])), modulus=r[1], start=r[2], len=r[3], capacity=r[4])
+            if len(r) > 5:
+                h["index"] = r[5]
+        else:
+            h = dict(method=CK_METHODS.get(r[0], str(r[0])), modulus=r[1], first=r[2], capacity=r[3])
+            if len(r) > 4:
+                h["index"] = r[4]
+        hits.append(h)
+    return hits, None
+
+
+def ck_search(rep, broken):
+    hits, note = ck_hits()
+    if hits:
+        h = min(hits, key=lambda h: (h["capacity"], h.get("index", 0)))
+        rep.violation("index_overflow_scaled_down", {
+            "kind": f"{h['method']} as regenerated from {RING_SRC}: on a machine whose usize has modulus {h['modulus']} "
+                    f"(storage of {h['capacity']} <= modulus/2 elements, valid state) an index addition reaches the modulus "
+                    "-- overflow panic with overflow checks, a wrapped (wrong) index without.  At modulus 2^64 the same "
+                    "arithmetic needs an argument near usize::MAX.",
+            "why": broken, "model": "generated_ck", "witness": h, "all_witnesses": len(hits),
+            "coq": "Eval vm_compute in scaled_down_hits.  (* Ring/RingGenCkRun.v; rows: method code, modulus, state, [index] *)",
+            "replay": "./check.py C06 --replay <this file>"})
+    return hits, note
+
+
+# ---------------------------------------------------------------------------
+
+
 def main(rep, tier, seed):
     rng = F.Rng(seed)
-    info = F.standard_proof_phase(rep, PROP)
-    ok, blog, binpath = F.harness_build("c06")
+    t0 = time.time()
+    names, regenerated, terr = regenerate()
+    tinfo = {"source": RING_SRC, "generated_files": ["coq/gen/RingGen.v", "coq/gen/RingGenCk.v"], "rewritten": list(regenerated or []),
+             "definitions": len(names or []), "translate_s": round(time.time() - t0, 2), "error": terr}
+    if terr is None:
+        # self-test of "never silently skipped": single-token edits of the method bodies must be rejected or change the output
+        try:
+            sens = T.sensitivity(open(RING_SRC).read())
+        except (T.TranslateError, OSError) as e:
+            sens = dict(sites=0, tried=0, rejected=0, changed=0, ignored=[f"self-test failed: {e}"])
+        tinfo["sensitivity_self_test"] = dict(single_token_edits=sens["tried"], rejected=sens["rejected"],
+                                              change_the_generated_model=sens["changed"], ignored=len(sens["ignored"]))
+        tinfo["translate_s"] = round(time.time() - t0, 2)
+        if sens["ignored"]:
+            rep.violation("translator_insensitive", {"kind": "translate/ring2coq.py ignores part of a method body: an edit of the source leaves the generated model unchanged",
+                                                    "edits": sens["ignored"][:20]}, no_input=True)
+    if TEST_RING:
+        rep.notes.append(f"note: DASP_RING_RS={TEST_RING} (testing mode: the translator reads this file instead of /repo's lib.rs; "
+                         + ("the harness is a scratch build of the same file under out/c06_scratch)" if TEST_HARNESS
+                            else "the harness is still built against /repo, only the translator side sees the change)"))
+    info = proof_phase(rep, terr)
+    info["translator"] = tinfo
+    broken = info.get("broken")
+    if TEST_HARNESS:
+        ok, blog, binpath = scratch_harness()
+    else:
+        ok, blog, binpath = F.harness_build("c06")
     if not ok:
         rep.violation("harness_build", {"kind": "harness does not build against /repo", "log": blog[-4000:]}, no_input=True)
+        if broken:
+            rep.violation("translator_tie_broken", dict(kind=broken["message"], **broken), no_input=True)
         return finish(rep, info, 0, 0, {}, [])
     corpus = load_corpus()
     items, n_exh = gen_cases(rng, tier)
@@ -228,14 +507,14 @@ def main(rep, tier, seed):
     for name, msg in errors:
         rep.violation("correspondence_error_" + name.replace("/", "_"), {"kind": "correspondence could not be evaluated", "where": name, "log": msg}, no_input=True)
     # the same cases in the release and overflow-checked-release profiles: observations must not depend on the profile
-    pdiffs, perrs = F.profile_diff("c06", items, outl, profiles=("release", "relchk")) if not errors else ([], [])
+    pdiffs, perrs = F.profile_diff("c06", items, outl, profiles=("release", "relchk")) if not errors and not TEST_HARNESS else ([], [])
     for name, msg in perrs:
         rep.violation("profile_" + name, {"kind": "harness could not be built/run in another profile", "log": msg}, no_input=True)
     for idx, prof, line in pdiffs[:3]:
         it = items[idx]
         rep.violation(f"profile_{prof}_case{idx}", {
             "kind": f"the crate behaves differently in the {prof} build profile than in the dev profile (the proved model has no profile dependence)",
-            "case": {k: it[k] for k in ("kind", "store", "start", "len", "first", "data", "ops") if k in it},
+            "case": case_of(it),
             "harness_line": it["line"], "dev_observations": outl[idx], f"{prof}_observations": line})
     hist = {}
     for it in items:
@@ -256,9 +535,37 @@ def main(rep, tier, seed):
         _, model = F.coq_eval("c06", HEADER, f"run_case ({small['coq']})")
         rep.violation(f"case{idx}", {
             "kind": "model/implementation disagreement: dasp_ring_buffer does not behave as the ideal queue/delay line the proved model refines",
-            "case": {k: small[k] for k in ("kind", "store", "start", "len", "first", "data", "ops") if k in small},
+            "case": case_of(small), **({"why": broken} if broken else {}),
             "harness_line": small["line"], "implementation_observations": out, "model_observations": model[-3000:],
             "original_case_index": idx, "replay": f"./check.py C06 --replay <this file>"})
+    # the translator tie broke: the correspondence above was the search at implementation level; now the
+    # regenerated model itself (when there is one) on the same cases
+    search = None
+    if broken:
+        search = {"hand_model_vs_crate_failing": len(bad), "cases": len(items)}
+        found = bool(bad)
+        if broken["stage"] in ("equivalence", "proof") and not errors:
+            nc, nh, note = gen_search(rep, binpath, items, outl, broken)
+            search.update(generated_vs_crate_failing=nc, generated_vs_hand_failing=nh, note=note)
+            found = found or bool(nc) or bool(nh)
+        if broken["stage"] == "index_overflow" or (broken["stage"] in ("equivalence", "proof") and not found):
+            # (the 64-bit lemmas come after the equivalence in the build: when that one broke they were not attempted)
+            hits, note = ck_search(rep, broken)
+            search.update(scaled_down_overflow_witnesses=(len(hits) if hits is not None else None), note=note)
+            found = found or bool(hits)
+        if not found:
+            rep.violation("translator_tie_broken", dict(
+                kind=broken["message"] + " -- and no failing input was found: the hand model still agrees with the crate on every case"
+                     + (", and so does the regenerated model" if search.get("generated_vs_crate_failing") == 0 else ""),
+                search=search, **broken), no_input=True)
+        info["search"] = search
+    elif tier == "thorough" and not errors and not bad:
+        # the search tool itself is exercised while nothing is broken: the runner of the generated model
+        # (Ring/RingGenRun.v, `_mut` operations routed to the generated `_mut` methods) must agree everywhere
+        nc, nh, note = gen_search(rep, binpath, items, outl, dict(stage="none", message="self-test of the generated-model runner: the equivalence is proved, yet the runner of the generated model disagrees (fault in Ring/RingGenRun.v or lib/props/c06.py)"))
+        info["generated_runner_self_test"] = dict(generated_vs_crate_failing=nc, generated_vs_hand_failing=nh, note=note)
+        if note:
+            rep.violation("generated_runner", {"kind": "the runner of the generated model could not be evaluated", "log": note}, no_input=True)
     dist = {"ops_histogram": hist, "exhaustive_small_state_cases": n_exh, "random_histories": len(items) - n_exh - len(corpus),
             "corpus_cases": len(corpus), "panic_observations": panics, "profiles": ["dev (model compared)", "release (diffed against dev)", "relchk (diffed against dev)"], "profile_differences": len(pdiffs)}
     samples = [items[i]["line"] for i in (0, n_exh // 2, len(items) - 1)]
@@ -269,28 +576,61 @@ def finish(rep, info, n, nontriv, dist, samples, bad=()):
     th = info.get("theorems", [])
     cov = {
         "obligations": max(1, len(th)), "discharged": len(th) if info.get("coq_ok") else 0,
-        "checker_cmd": "make -f Makefile.coq props/C06.vo (coqc 8.16.1, full .vo) + Print Assumptions audit",
+        "checker_cmd": "translate/ring2coq.py /repo/dasp_ring_buffer/src/lib.rs > coq/gen/RingGen.v, coq/gen/RingGenCk.v; make -f Makefile.coq props/C06.vo (coqc 8.16.1, full .vo) + Print Assumptions audit",
         "trusted_base": F.TRUSTED_COMMON + ["axioms: none (every theorem of props/C06.v is closed under the global context)",
-                                           "modelled, not verified: Rust slices as lists, mem::replace/ptr::read/ptr::write as list updates; usize as nat in the refinement theorems, with the 64-bit reading of every index addition proved free of overflow in valid states for indices up to usize::MAX (c06_index_arith_no_overflow), slice lengths assumed <= 2^63 (true of every non-zero-sized element type)"],
+                                           "translate/ring2coq.py (Rust method bodies -> Gallina: evaluation order, control flow, state threading) and the vocabulary Ring/RingPrim.v it translates into; validated through the correspondence of the (proved equal) hand model",
+                                           "modelled, not verified: Rust slices as lists, &mut [T] as an (offset, length) range and &mut T as an index into self.data, mem::replace/ptr::read/ptr::write as list updates; the caller-side glue of Ring/RingGenGlue.v (store through a returned reference, visiting an IterMut, draining); usize as nat in the refinement theorems and in the generated model, with the 64-bit reading of every index addition proved free of overflow in valid states for indices up to usize::MAX (c06_index_arith_no_overflow), slice lengths assumed <= 2^63 (true of every non-zero-sized element type)"],
         "theorems": th, "axioms_reported": info.get("axioms", []),
+        "translator": info.get("translator", {}), "translator_tie_broken": info.get("broken"), "search": info.get("search"),
+        "generated_runner_self_test": info.get("generated_runner_self_test"),
         "evaluations": n, "distinct_nontrivial": nontriv,
         "rule": "every raw (start,len)/(first) state of capacities 0..6 (quick) x each operation followed by a full observation sweep, plus random histories (1500 quick) from random raw states over 5 storage kinds (Vec, Box<[T]>, &mut [T], [T; N], Vec with spare capacity); non-trivial = an evicting push or a wrapped slice pair occurs (Bounded), first != 0 (Fixed)",
         "samples": samples, "input_distribution": dist, "disagreements": len(bad),
-        "explanation": "theorems: refinement of the model to the ideal queue/delay line for all capacities, states and histories; tie: the model's executable definitions run by coqc on the same cases as the real crate, all observations compared exactly",
+        "explanation": "theorems: refinement of the model to the ideal queue/delay line for all capacities, states and histories, and equality of every method regenerated from the source with the hand model's on all inputs; ties: the model regenerated by the translator on this run (proved equal), and the model's executable definitions run by coqc on the same cases as the real crate, all observations compared exactly",
     }
     return rep.finish("proof", cov, ["Rust slices are modelled as lists; usize as unbounded nat in the refinement, machine reading of the index additions in Ring/IndexArith.v (slice length <= 2^63)",
+                                    "the translator is faithful (validated by the correspondence, not proved)",
                                     "the harness observes through the public API only (from_raw_parts gives arbitrary raw states)"])
 
 
 def replay(path):
     j = json.load(open(path))
+    if j.get("model") == "generated_ck":
+        names, regenerated, terr = regenerate()
+        if terr:
+            print("translator:", terr)
+            return 1
+        hits, note = ck_hits()
+        print("scaled-down witnesses (64-bit reading vs unbounded reading of the regenerated methods):", hits if hits is not None else note)
+        print("DISAGREE" if hits or hits is None else "AGREE")
+        return 1 if hits or hits is None else 0
+    if "case" not in j:
+        print("this replay file names a broken lemma / translator error and has no input; re-run ./check.py C06")
+        print(json.dumps({k: j.get(k) for k in ("kind", "stage", "broken_lemma", "file", "line", "coq_message", "message")}, indent=1))
+        return 1
     it = build(j["case"])
-    ok, blog, binpath = F.harness_build("c06")
+    if TEST_HARNESS:
+        ok, blog, binpath = scratch_harness()
+    else:
+        ok, blog, binpath = F.harness_build("c06")
     rc, out, _ = F.run_bin(binpath, [it["line"]])
-    _, model = F.coq_eval("c06", HEADER, f"run_case ({it['coq']})")
     print("case:", it["line"])
     print("implementation:", out)
-    print("model:", model)
-    o, bad, errs = F.correspond(binpath, [it], HEADER, CHECK, "c06_replay")
+    if j.get("model") == "generated":
+        names, regenerated, terr = regenerate()
+        if terr:
+            print("translator:", terr)
+            return 1
+        okb, logb = F.coq_make("theories/Ring/RingGenRun.vo")
+        _, gmodel = F.coq_eval("c06", GEN_HEADER, f"gen_run_case ({it['gcoq']})")
+        _, hmodel = F.coq_eval("c06", GEN_HEADER, f"run_case ({it['coq']})")
+        print("generated model:", gmodel)
+        print("hand model:", hmodel)
+        fn = "agree_gen" if j.get("against") == "hand" else "check_gen"
+        bad, errs = F.coq_check_cases("c06_replay", GEN_HEADER, fn, [f"({it['gcoq']}, {F.zlistlist(F.norm_obs_line(out[0]))})"])
+    else:
+        _, model = F.coq_eval("c06", HEADER, f"run_case ({it['coq']})")
+        print("model:", model)
+        o, bad, errs = F.correspond(binpath, [it], HEADER, CHECK, "c06_replay")
     print("AGREE" if not bad and not errs else "DISAGREE")
     return 1 if bad or errs else 0
